@@ -147,6 +147,46 @@ func TestFanSpeedSmallSteps(t *testing.T) {
 				}
 			}
 		}
+		// the far ends of the scale: a sensor fault may report an infinite percentage, of either sign. The model accepts what
+		// it is given; +Inf and -Inf are as far from each other as two values can be, so each such update appears on every
+		// open stream like any other change beyond the tolerance
+		if len(streams) > 0 && rapid.IntRange(0, 2).Draw(t, "infinities") == 1 {
+			vals := []float32{float32(math.Inf(1)), float32(math.Inf(-1))}
+			if rapid.Bool().Draw(t, "negativeFirst") {
+				vals[0], vals[1] = vals[1], vals[0]
+			}
+			for _, v := range vals {
+				cur, err := client.GetFanSpeed(ctx, &traits.GetFanSpeedRequest{Name: deviceName})
+				if err != nil {
+					t.Fatalf("GetFanSpeed: %v", err)
+				}
+				res, err := client.UpdateFanSpeed(ctx, &traits.UpdateFanSpeedRequest{Name: deviceName, FanSpeed: &traits.FanSpeed{Percentage: v, PresetIndex: cur.PresetIndex}})
+				hist = append(hist, fmt.Sprintf("update(%v)=%v", v, err))
+				if err != nil {
+					break // a model may refuse such a value; then nothing is expected of the streams
+				}
+				if res.GetPercentage() != v {
+					t.Fatalf("UpdateFanSpeed(percentage=%v) answered %v\nhistory: %s", v, res, strings.Join(hist, " "))
+				}
+				for si, s := range streams {
+					deadline := time.Now().Add(5 * time.Second)
+					for {
+						s.mu.Lock()
+						last := s.got[len(s.got)-1]
+						s.mu.Unlock()
+						if last == v {
+							delivered++
+							break
+						}
+						if time.Now().After(deadline) {
+							t.Fatalf("stream %d: the update to %v (Get now says %v) was not delivered within 5s although its reader keeps up (received so far %v)\nhistory: %s", si, v, res.GetPercentage(), s.raw, strings.Join(hist, " "))
+						}
+						time.Sleep(100 * time.Microsecond)
+					}
+				}
+			}
+			lib.Ev.Class("fan speed: infinite percentages of both signs")
+		}
 		nt := ""
 		if delivered > 0 && len(streams) > 0 {
 			nt = strings.Join(hist, " ")
